@@ -36,12 +36,15 @@ Sig == [ compose |-> <<(<<"C", "C">>), "C">>, quotient |-> <<(<<"C", "C">>), "C"
          term_remove |-> <<(<<"T">>), "T">>, term_queries |-> <<(<<"T">>), "S">>, list_of_terms |-> <<(<<"T", "T">>), "L">>,
          \* the contract constructor on two pool lists (it copies what it is given; interface = the variables they mention)
          construct |-> <<(<<"L", "L">>), "C">>,
+         \* read-only queries that hand out lists: the interface of a contract, the variables of a list
+         vars_query |-> <<(<<"C">>), "S">>, list_vars_query |-> <<(<<"L">>), "S">>,
          cmerge |-> <<(<<"K", "K">>), "K">>, ccontains |-> <<(<<"K">>), "S">>, cprinted |-> <<(<<"K">>), "S">>, ceq |-> <<(<<"K", "K">>), "S">> ]
 Mutators == {"simplify_inplace"}      \* operations allowed to change their FIRST argument, and nothing else
 AllOps == DOMAIN Sig
 FocusOps == {"compose", "quotient", "copy", "elim_refine", "merge", "rename"}
 TermOps == {"construct", "difference", "pick_term", "term_rename", "term_isolate", "term_substitute", "term_add", "term_multiply", "term_remove", "term_queries", "list_of_terms",
             "is_empty", "simplify", "list_copy", "contains"}
+TwinOps == {"list_refines", "refines", "is_empty", "simplify", "union", "contains_env", "contains_impl", "optimize", "list_copy", "copy", "vars_query"}
 HashOps == {"copy", "simplify_inplace", "hash_eq", "rename", "dict_roundtrip", "compose", "merge"}
 Ops == DOMAIN Sig \cap OpFilter
 
